@@ -48,7 +48,7 @@ def s_hatvee():
         "form": st.sampled_from(["list", "tuple", "array"] * 2 + DT_FORMS),
     }).flatmap(lambda d: st.fixed_dictionaries({
         "kind": st.just("hatvee"), "n": st.just(d["n"]), "form": st.just(d["form"]),
-        "u": small(d["n"]) if d["form"].startswith("array:") else _vec(d["n"]), "v": small(d["n"]) if d["form"].startswith("array:") else _vec(d["n"]),
+        "u": small(d["n"]) if ":" in d["form"] else _vec(d["n"]), "v": small(d["n"]) if ":" in d["form"] else _vec(d["n"]),
         "a": st.integers(-50, 50).map(float), "b": st.integers(-50, 50).map(float)}))
 
 
@@ -74,7 +74,8 @@ def s_delta():
     return st.fixed_dictionaries({"kind": st.just("delta"), "d": dvec, "T0": gens.pose3(t_hi=3), "T1": gens.pose3(t_hi=3)})
 
 
-DT_FORMS = ["array:float32", "array:int32", "array:int16", "array:int8", "array:uint8", "array:uint16"]
+DT_FORMS = ["array:float32", "array:int32", "array:int16", "array:int8", "array:uint8", "array:uint16",
+            "nplist:uint8", "nplist:int8", "nplist:float32", "nptuple:uint16"]        # list / tuple of NumPy scalars (what list(arr) gives)
 
 
 def _form(v, form):
@@ -82,6 +83,16 @@ def _form(v, form):
         return list(v)
     if form == "tuple":
         return tuple(v)
+    if form.startswith(("nplist:", "nptuple:")):
+        dt = np.dtype(form.split(":")[1])
+        with np.errstate(all="ignore"):
+            try:
+                a = np.array(v, dtype=dt)
+                if np.array_equal(a.astype(float), np.array(v, dtype=float)):
+                    return list(a) if form.startswith("nplist") else tuple(a)
+            except (OverflowError, ValueError):
+                pass
+        return list(v)
     if form.startswith("array:"):
         # 'for all real vectors': the same numbers in an array of another real element type (when exactly representable)
         with np.errstate(all="ignore"):
@@ -146,11 +157,11 @@ def _hatvee(case):
                 if ok2:
                     c.eq("vexa(skewa)", r, u, 0)
     # vector helpers against their definitions
-    okn, nr = c.lib("norm", b.norm, _form(case["u"], case["form"]) if case["form"].startswith("array") else np.array(u))
+    okn, nr = c.lib("norm", b.norm, _form(case["u"], case["form"]) if ":" in case["form"] or case["form"] == "array" else np.array(u))
     exact = math.sqrt(float(sum(Fraction(x) * Fraction(x) for x in case["u"]))) if all(abs(x) < 1e150 for x in case["u"]) else None
     if okn and exact is not None:
         c.eq("norm", nr, exact, 1e-14, max(exact, 1e-300))
-    okq, nq = c.lib("normsq", b.normsq, _form(case["u"], case["form"]) if case["form"].startswith("array") else np.array(u))
+    okq, nq = c.lib("normsq", b.normsq, _form(case["u"], case["form"]) if ":" in case["form"] or case["form"] == "array" else np.array(u))
     if okq and exact is not None:
         c.eq("normsq", nq, float(sum(Fraction(x) * Fraction(x) for x in case["u"])), 1e-14, max(exact * exact, 1e-300))
     okc, cv = c.lib("colvec", b.colvec, fu)
@@ -224,6 +235,15 @@ def _adjoint(case):
         want[:3, :3] = R.T
         want[3:, 3:] = R.T
         c.eq("tr2jac", J, want, 1e-12)
+    # the flag in every truthy / falsy carrier a caller may compute it with (bool, NumPy bool, int), by position and keyword
+    for carrier, flag in (("np.True_", np.True_), ("1", 1), ("np.bool_(True)", np.bool_(True)), ("np.int64(1)", np.int64(1))):
+        okf, Jf = c.lib("tr2jac/samebody/" + carrier, b.tr2jac, T1, flag)
+        if okf:
+            c.eq("tr2jac/samebody/flag=" + carrier, Jf, refs.adjoint(Ti), 1e-9, sc)
+    for carrier, flag in (("np.False_", np.False_), ("0", 0)):
+        okf, Jf = c.lib("tr2jac/" + carrier, lambda: b.tr2jac(T1, samebody=flag))
+        if okf and okj:
+            c.eq("tr2jac/flag=" + carrier, Jf, J, 0)
     okj2, J2 = c.lib("tr2jac/samebody", b.tr2jac, T1, True)
     if okj2:
         c.eq("tr2jac/samebody", J2, refs.adjoint(Ti), 1e-9, sc)
